@@ -845,7 +845,25 @@ func (e *Exec) recursiveSpecCall(sf *SpecFunc, args []TV, env *SpecEnv) TV {
 		ts = append(ts, a.T)
 	}
 	for _, k := range keys {
-		ts = append(ts, e.heapGet(env.cur, k))
+		h := e.heapGet(env.cur, k)
+		if env.cur.probe != nil || !strings.HasPrefix(k, "M_") {
+			ts = append(ts, h)
+			continue
+		}
+		// frame by construction: the function only sees the backing arrays of its slice arguments,
+		// so that its value is syntactically independent of writes to other arrays
+		m := e.heapMetas[k]
+		base := Term{"emptyheap!" + k, m.sort}
+		e.declare(base.S, m.sort)
+		restricted := base
+		for _, a := range args {
+			sl, ok := types.Unalias(a.Ty).Underlying().(*types.Slice)
+			if !ok || a.T.Sort != SSlice || elemKey(sl.Elem()) != k {
+				continue
+			}
+			restricted = Store(restricted, SRef(a.T), Select(h, SRef(a.T), ArraySort(SInt, m.vsort)))
+		}
+		ts = append(ts, restricted)
 	}
 	return TV{mk(rsort, name, ts...), outTy}
 }
